@@ -2,8 +2,8 @@
 //
 // Enumerates every sequence of 1..3 documents (quick: <= 2) over a 14-document JSON alphabet x every
 // choice of whitespace separator before / between / after x 6 suffixes appended after the last document
-// x 5 readers, and every sequence of <= 3 MessagePack objects over all encodings (<= 1 non-minimal node)
-// of 12 small values x 5 suffixes x 5 readers.  After every call the number of bytes the reader has
+// x 6 readers, and every sequence of <= 3 MessagePack objects over all encodings (<= 1 non-minimal node)
+// of 12 small values x 5 suffixes x 6 readers.  After every call the number of bytes the reader has
 // handed out must be exactly "leading whitespace + the document" (one more allowed after a JSON
 // number), the code must be Ok and the document must observe as the reference value; what calls 1..i
 // returned and consumed must be a function of the bytes they consumed (memo across the whole
@@ -104,11 +104,12 @@ struct ArduinoStub : public Stream {
 };
 #endif
 
-static const char* kReaders[] = {"istream", "istreamblk", "custom", "customblk", "arduino"};
+// "customskip": the byte-wise custom reader with a filter that discards everything (skip routines / skipBytes)
+static const char* kReaders[] = {"istream", "istreamblk", "custom", "customblk", "customskip", "arduino"};
 #if ARDUINOJSON_ENABLE_ARDUINO_STREAM
-static const int kNumReaders = 5;
+static const int kNumReaders = 6;
 #else
-static const int kNumReaders = 4;
+static const int kNumReaders = 5;
 #endif
 
 // ------------------------------------------------------------------------------------------ alphabets
@@ -119,6 +120,8 @@ struct Doc {
   std::string name;     // rendering in the case key
   std::string obs;      // obsModel(value), cached
   bool basic = false;   // MessagePack: the minimal or the all-maximal encoding of its value
+  bool extended = false;  // larger document: only in sequences of <= 2 (thorough) / 1 (quick)
+  bool byHand = false;    // outside RFC 8259 (ArduinoJson dialect): no refjson cross-check
 };
 
 inline std::vector<Doc> jsonDocs() {
@@ -149,6 +152,33 @@ inline std::vector<Doc> jsonDocs() {
   add("-7", MValue::integer(-7), true);
   add("1.5", MValue::f64(1.5), true);
   add("1e3", MValue::f64(1000.0), true);
+  // extended alphabet: other last-token shapes, escapes, nesting, the longest number the documented limits allow
+  size_t base = D.size();
+  MValue nested = MValue::object(), inner = MValue::array(), b = MValue::object();
+  b.o.emplace_back("b", MValue::null());
+  inner.a.push_back(MValue::integer(1));
+  inner.a.push_back(b);
+  nested.o.emplace_back("a", inner);
+  nested.o.emplace_back("c", MValue::str("d"));
+  add("{\"a\":[1,{\"b\":null}],\"c\":\"d\"}", nested, false);
+  MValue two = MValue::array();
+  two.a.push_back(MValue::array());
+  two.a.push_back(MValue::object());
+  add("[[],{}]", two, false);
+  add("\"a\\\"b\\\\\"", MValue::str("a\"b\\"), false);
+  add("\"\\u00e9\"", MValue::str("\xc3\xa9"), false);
+  add("\"\"", MValue::str(""), false);
+  add("''", MValue::str(""), false);
+  add("1E+2", MValue::f64(100.0), true);
+  {
+    std::string lit(61, '0');
+    lit += "42";  // 63 characters, the documented maximum for a numeric literal
+    add(lit.c_str(), MValue::integer(42), true);
+    D.back().name = "0{61}42";
+    D.back().byHand = true;
+  }
+  for (size_t i = base; i < D.size(); i++) D[i].extended = true;
+  for (auto& d : D) if (d.bytes[0] == '\'') d.byHand = true;
   return D;
 }
 
@@ -179,9 +209,27 @@ inline std::vector<Doc> msgpackDocs(int nonMinimal) {
   MValue aa = MValue::array();
   aa.a.push_back(MValue::array());
   vals.push_back(aa);
+  const size_t baseVals = vals.size();
+  {  // extended alphabet
+    MValue nested = MValue::object(), inner = MValue::array(), b = MValue::object();
+    b.o.emplace_back("b", MValue::null());
+    inner.a.push_back(MValue::integer(1));
+    inner.a.push_back(b);
+    nested.o.emplace_back("a", inner);
+    vals.push_back(nested);
+    vals.push_back(MValue::str(std::string(40, 'x')));  // str8
+    vals.push_back(MValue::integer((i128(1) << 64) - 1));
+    vals.push_back(MValue::integer(-(i128(1) << 63)));
+    vals.push_back(MValue::f32(2.5f));
+    vals.push_back(MValue::raw(refmp::makeExt(1, std::string(3, 'e'))));  // ext8
+    vals.push_back(MValue::raw(refmp::makeBin(std::string(300, 'b'))));  // bin16
+  }
   std::vector<Doc> D;
   std::set<std::string> seen;
+  size_t vi = 0;
   for (auto& v : vals) {
+    const bool ext = vi++ >= baseVals;
+    const size_t first = D.size();
     refmp::encodings(v, nonMinimal, [&](const std::string& bytes, const std::string&) {
       if (!seen.insert(bytes).second) return;
       Doc d;
@@ -192,6 +240,10 @@ inline std::vector<Doc> msgpackDocs(int nonMinimal) {
     refmp::encodings(v, 0, [&](const std::string& bytes, const std::string&) {
       for (auto& d : D) if (d.bytes == bytes) d.basic = true;
     });
+    for (size_t i = first; i < D.size(); i++) {
+      D[i].extended = ext;
+      if (D[i].bytes.size() > 24) D[i].name = hex(D[i].bytes.substr(0, 8)) + "..(" + std::to_string(D[i].bytes.size()) + ")";
+    }
   }
   return D;
 }
@@ -211,90 +263,116 @@ struct Memo {
   uint64_t hits = 0;
 };
 
+struct Answer {
+  DeserializationError::Code code;
+  std::string obs;  // observation of the document after the call
+  size_t pos;       // reader position after the call
+  bool operator==(const Answer& o) const { return code == o.code && obs == o.obs && pos == o.pos; }
+};
+
+// Performs up to `ncalls` successive calls on one source; stops after the first call that is not Ok.
 template <typename Src, typename PosFn>
-inline void drive(Ctx& C, const Plan& P, int reader, Src& src, PosFn position, Memo& memo, uint64_t& calls) {
-  JsonDocument doc;
-  std::string outcome;
-  uint64_t answers = fnv1a(&reader, sizeof reader);
-  bool inSync = true;
-  for (size_t i = 0; i < P.docs.size(); i++) {
-    const Doc& d = *P.docs[i];
-    DeserializationError e = P.msgpack ? deserializeMsgPack(doc, src) : deserializeJson(doc, src);
+inline std::vector<Answer> exec(bool msgpack, size_t ncalls, Src& src, PosFn position, bool skip, uint64_t& calls) {
+  std::vector<Answer> out;
+  JsonDocument doc, fdoc;
+  fdoc.set(false);
+  DeserializationOption::Filter discard(fdoc);
+  for (size_t i = 0; i < ncalls; i++) {
+    DeserializationError e;
+    if (skip) e = msgpack ? deserializeMsgPack(doc, src, discard) : deserializeJson(doc, src, discard);
+    else e = msgpack ? deserializeMsgPack(doc, src) : deserializeJson(doc, src);
     calls++;
-    size_t pos = position();
-    outcome += e.c_str();
-    outcome += ",";
+    out.push_back({e.code(), obsReal(doc.as<JsonVariantConst>()), position()});
+    if (e != DeserializationError::Ok) break;
+  }
+  return out;
+}
+
+inline std::vector<Answer> execReader(const std::string& stream, bool msgpack, int reader, size_t ncalls, uint64_t& calls) {
+  switch (reader) {
+    case 0:
+    case 1: {
+      WindowBuf buf(stream, reader == 0 ? 1 : 3);
+      std::istream is(&buf);
+      return exec(msgpack, ncalls, is, [&] { return buf.position(); }, false, calls);
+    }
+    case 2:
+    case 3:
+    case 4: {
+      CustomReader rd(stream, reader == 3);
+      return exec(msgpack, ncalls, rd, [&] { return rd.position(); }, reader == 4, calls);
+    }
+#if ARDUINOJSON_ENABLE_ARDUINO_STREAM
+    case 5: {
+      ArduinoStub st(stream);
+      return exec(msgpack, ncalls, st, [&] { return st.position(); }, false, calls);
+    }
+#endif
+  }
+  return {};
+}
+
+inline void runReader(Ctx& C, const Plan& P, int reader, Memo& memo, uint64_t& calls) {
+  const bool skip = reader == 4;
+  const size_t n = P.docs.size();
+  std::vector<Answer> A = execReader(P.stream, P.msgpack, reader, n + 1, calls);
+  std::string outcome;
+  for (auto& a : A) outcome += std::string(outcome.empty() ? "" : ",") + DeserializationError(a.code).c_str();
+  C.outcome(outcome);
+  uint64_t answers = fnv1a(&reader, sizeof reader);
+  size_t good = 0;  // calls that were judged correct
+  for (size_t i = 0; i < n && i < A.size(); i++) {
+    const Doc& d = *P.docs[i];
+    const Answer& a = A[i];
     std::string at = "call " + std::to_string(i + 1) + " (document " + d.name + "): ";
-    if (e != DeserializationError::Ok) {
-      C.fail("code", at + "returned " + e.c_str() + " instead of Ok; stream " + vis(P.stream));
-      inSync = false;
+    if (a.code != DeserializationError::Ok) {
+      C.fail("code", at + "returned " + DeserializationError(a.code).c_str() + " instead of Ok; stream " + vis(P.stream));
       break;
     }
-    std::string got = obsReal(doc.as<JsonVariantConst>());
-    const std::string& want = d.obs;
-    if (got != want) C.fail("value", at + "observed " + got + " expected " + want + "; stream " + vis(P.stream));
-    bool exact = pos == P.ends[i];
-    bool lookahead = d.number && pos == P.ends[i] + 1 && pos <= P.stream.size();
+    if (!skip && a.obs != d.obs) C.fail("value", at + "observed " + a.obs + " expected " + d.obs + "; stream " + vis(P.stream));
+    bool exact = a.pos == P.ends[i];
+    bool lookahead = d.number && a.pos == P.ends[i] + 1 && a.pos <= P.stream.size();
     if (!exact && !lookahead) {
-      C.fail(pos > P.ends[i] ? "over-consumption" : "under-consumption",
-             at + "reader position " + std::to_string(pos) + " after the call, the document ends at " + std::to_string(P.ends[i]) +
+      C.fail(a.pos > P.ends[i] ? "over-consumption" : "under-consumption",
+             at + "reader position " + std::to_string(a.pos) + " after the call, the document ends at " + std::to_string(P.ends[i]) +
                  (d.number ? " (+1 allowed)" : "") + "; stream " + vis(P.stream));
-      inSync = false;
       break;
     }
-    // independence from what was not consumed
-    answers = fnv1a(got, fnv1a(&pos, sizeof pos, answers));
-    uint64_t prefix = fnv1a(P.stream.data(), pos, fnv1a(&reader, sizeof reader, P.msgpack ? 77 : 78));
+    good = i + 1;
+    // independence from what was not consumed, (a) across the enumeration: one answer per (reader, consumed prefix)
+    answers = fnv1a(a.obs, fnv1a(&a.pos, sizeof a.pos, answers));
+    uint64_t prefix = fnv1a(P.stream.data(), a.pos, fnv1a(&reader, sizeof reader, P.msgpack ? 77 : 78));
     prefix = fnv1a(&i, sizeof i, prefix);
     auto it = memo.seen.find(prefix);
     if (it == memo.seen.end()) memo.seen.emplace(prefix, answers);
     else {
       memo.hits++;
       if (it->second != answers)
-        C.fail("depends-on-unread-bytes", at + "the same consumed prefix " + vis(P.stream.substr(0, pos)) +
+        C.fail("depends-on-unread-bytes", at + "the same consumed prefix " + vis(P.stream.substr(0, a.pos)) +
                                               " gave a different answer in another case; stream " + vis(P.stream));
     }
+    // (b) within the case (replayable): the same calls on the consumed bytes alone must answer the same
+    if (a.pos < P.stream.size()) {
+      std::vector<Answer> A2 = execReader(P.stream.substr(0, a.pos), P.msgpack, reader, i + 1, calls);
+      bool same = A2.size() == i + 1;
+      for (size_t k = 0; same && k <= i; k++) same = A2[k] == A[k];
+      if (!same)
+        C.fail("depends-on-unread-bytes", at + "calls 1.." + std::to_string(i + 1) + " answer differently when the stream holds only the bytes they consumed (" +
+                                              vis(P.stream.substr(0, a.pos)) + "); full stream " + vis(P.stream));
+    }
   }
-  if (inSync) {
-    // one more call: on an exhausted stream it must say EmptyInput
-    DeserializationError e = P.msgpack ? deserializeMsgPack(doc, src) : deserializeJson(doc, src);
-    calls++;
-    outcome += e.c_str();
-    if (P.cleanEnd && e != DeserializationError::EmptyInput)
-      C.fail("end-of-stream", std::string("the call after the last document returned ") + e.c_str() + " instead of EmptyInput; stream " + vis(P.stream));
-    if (position() > P.stream.size()) C.fail("over-consumption", "reader position beyond the end of the stream");
-  }
-  C.outcome(outcome);
-}
-
-inline void runReader(Ctx& C, const Plan& P, int reader, Memo& memo, uint64_t& calls) {
-  switch (reader) {
-    case 0:
-    case 1: {
-      WindowBuf buf(P.stream, reader == 0 ? 1 : 3);
-      std::istream is(&buf);
-      drive(C, P, reader, is, [&] { return buf.position(); }, memo, calls);
-      break;
-    }
-    case 2:
-    case 3: {
-      CustomReader rd(P.stream, reader == 3);
-      drive(C, P, reader, rd, [&] { return rd.position(); }, memo, calls);
-      break;
-    }
-#if ARDUINOJSON_ENABLE_ARDUINO_STREAM
-    case 4: {
-      ArduinoStub st(P.stream);
-      drive(C, P, reader, st, [&] { return st.position(); }, memo, calls);
-      break;
-    }
-#endif
+  if (good == n && A.size() == n + 1) {
+    // the call after the last document: on an exhausted stream it must say EmptyInput
+    if (P.cleanEnd && A[n].code != DeserializationError::EmptyInput)
+      C.fail("end-of-stream", std::string("the call after the last document returned ") + DeserializationError(A[n].code).c_str() +
+                                  " instead of EmptyInput; stream " + vis(P.stream));
+    if (A[n].pos > P.stream.size()) C.fail("over-consumption", "reader position beyond the end of the stream");
   }
 }
 
 inline void selfCheck(Ctx& C, const std::vector<Doc>& J, std::vector<Doc>& M) {
   for (auto& d : J) {
-    if (d.bytes[0] == '\'') continue;  // single quotes: ArduinoJson dialect, value given by hand
+    if (d.byHand) continue;  // single quotes, leading zeros: ArduinoJson dialect, value given by hand
     MValue m;
     std::string err;
     if (!refjson::parse(d.bytes, m, &err) || obsModel(&m) != obsModel(&d.value))
@@ -332,6 +410,11 @@ inline void run(Ctx& C) {
       for (size_t dc = 0; dc < docCombos; dc++) {
         size_t x = dc;
         for (int k = n - 1; k >= 0; k--) { di[size_t(k)] = int(x % J.size()); x /= J.size(); }
+        {
+          bool ext = false;
+          for (int k = 0; k < n; k++) ext = ext || J[size_t(di[size_t(k)])].extended;
+          if (ext && n > (T ? 2 : 1)) continue;
+        }
         std::string docNames;
         for (int k = 0; k < n; k++) docNames += (k ? ";" : "") + J[size_t(di[size_t(k)])].name;
         if (C.expired()) goto done;
@@ -391,6 +474,11 @@ inline void run(Ctx& C) {
         size_t x = dc;
         for (int k = n - 1; k >= 0; k--) { di[size_t(k)] = int(x % M.size()); x /= M.size(); }
         if (C.expired()) goto done;
+        {
+          bool ext = false;
+          for (int k = 0; k < n; k++) ext = ext || M[size_t(di[size_t(k)])].extended;
+          if (ext && n > (T ? 2 : 1)) continue;
+        }
         if (!T && n >= 3) {
           bool basic = true;
           for (int k = 0; k < n; k++) basic = basic && M[size_t(di[size_t(k)])].basic;
@@ -429,12 +517,14 @@ done:
   C.metrics["prefix_memo_hits"] += double(memo.hits);
   C.metrics["prefix_memo_entries"] += double(memo.seen.size());
   C.bound(std::string(T ? "" : "[quick: sequences of 3 restricted to separators {\"\", LF} and to the minimal / all-maximal MessagePack encodings] ") +
-          "JSON: every sequence of 1.." + std::to_string(maxDocs) + " documents over {{} {\"a\":1} [] [1] \"s\" 's' true false null 0 42 -7 1.5 1e3} x "
+          "JSON: every sequence of 1.." + std::to_string(maxDocs) + " documents over {{} {\"a\":1} [] [1] \"s\" 's' true false null 0 42 -7 1.5 1e3} "
+          "(and, in sequences of at most " + std::string(T ? "2" : "1") + ", also {nested object, [[],{}], strings with \\\" \\\\ and \\u00e9, \"\", '', 1E+2, a 63-character number}) x "
           "every separator in {\"\", SP, LF, CRLF, TAB SP SP} before / between / after (never \"\" between a number and the next document; "
           "a last number directly followed by a non-empty suffix is excluded) x suffix in {\"\", x, ], \", 1, NUL} x " +
           std::to_string(kNumReaders) + " readers {std::istream over a 1-byte-window streambuf, over a 3-byte-window streambuf, custom reader with "
-          "byte-wise readBytes, custom reader with block readBytes, Arduino Stream stub}; MessagePack: every sequence of 1.." + std::to_string(maxDocs) +
-          " objects over the " + std::to_string(M.size()) + " encodings (at most one non-minimal node, plus all-maximal) of {nil true 1 -1 300 1.5 \"a\" [1] {\"a\":1} bin ext [[]]} "
+          "byte-wise readBytes, custom reader with block readBytes, byte-wise custom reader with a discard-all filter (code and consumption only), Arduino Stream stub}; MessagePack: every sequence of 1.." + std::to_string(maxDocs) +
+          " objects over the " + std::to_string(M.size()) + " encodings (at most one non-minimal node, plus all-maximal) of {nil true 1 -1 300 1.5 \"a\" [1] {\"a\":1} bin ext [[]]} (and, in sequences of at most " + std::string(T ? "2" : "1") +
+          ", of {nested map, 40-byte string, 2^64-1, -2^63, float32 2.5, ext8, bin16}) "
           "x suffix in {\"\", c1, 91, d9, 00} x the same readers");
 }
 }  // namespace ix_stream
